@@ -12,7 +12,7 @@ Not decided: losslessness of any conversion."""
 from . import flow
 from .common import table
 
-CRATES = {"gluon_vm", "gluon", "gluon_c_api", "gluon_check"}
+CRATES = {"gluon_vm", "gluon", "gluon_c_api", "gluon_check", "gluon_base"}
 THOROUGH_CONFIGS = ["default", "nodefault"]  # thorough also analyses the default-feature and the no-default-features builds
 GET = "gluon_vm::api::Getable::from_value"
 MK = "gluon_vm::api::VmType::make_type"
@@ -220,3 +220,6 @@ def run(fb, rep, tier, cfg):
     from . import r12f
     r12f.run(fb, rep)
     r12f.r12g(fb, rep)
+    from . import r12h
+    r12h.r12h(fb, rep)
+    r12h.r12i(fb, rep)
